@@ -239,7 +239,8 @@ func (c *Ctx) Cmp(op Op, x, y *Term) *Term {
 	if x == y {
 		switch op {
 		case OEq, OLe:
-			if x.K != KF64 {
+			// a float converted from an integer is never NaN, so x == x holds
+			if x.K != KF64 || x.Op == OI2F {
 				return c.Bool(true)
 			}
 		case OLt:
